@@ -14,7 +14,8 @@ from lib import common, tracecheck
 from lib.common import log
 
 SPEC = common.SPEC / "observer"
-FLAGS = ["-O1", "-g", "-UNDEBUG", "-fno-omit-frame-pointer"]
+# ASan: an operation that walks freed nodes must not pass because the allocator happens to refill them identically
+FLAGS = ["-O1", "-g", "-UNDEBUG", "-fsanitize=address,undefined", "-fno-sanitize=nonnull-attribute,vptr", "-fno-omit-frame-pointer"]
 REPO_SRC = ["src/observer/routing/SubjectRouter.cpp", "src/observer/routing/RoutingKey.cpp", "src/observer/routing/RoutingKeyBuilder.cpp",
             "src/observer/routing/RoutingLevelView.cpp", "src/threading/rwp/Resource.cpp"]
 KEYS = ["a", "b", "a/b", "a/a", "b/a"]
